@@ -108,8 +108,14 @@ func h15g(N int) {
 			c.handleFrame(&http2.RSTStreamFrame{FrameHeader: http2.FrameHeader{Type: http2.FrameRSTStream, StreamID: id}, ErrCode: http2.ErrCodeCancel}, fromClient)
 			st[s] = 2
 			wantN[s], wantKind[s], wantResp[s] = 1, 1, respStarted[s]
-		default: // GOAWAY from the server
+		default: // GOAWAY
 			last := [4]uint32{0, 1, 3, 5}[vIntAt("last", i, N, 0, 3)]
+			if end {
+				// sent by the client: its last-stream-id is about streams the *server* initiated; the client's
+				// own calls go on
+				c.handleFrame(&http2.GoAwayFrame{FrameHeader: http2.FrameHeader{Type: http2.FrameGoAway}, LastStreamID: last, ErrCode: http2.ErrCodeNo}, true)
+				continue
+			}
 			vAssume(maxID == 0 || last <= maxID) // the last stream id never grows
 			maxID = last
 			c.handleFrame(&http2.GoAwayFrame{FrameHeader: http2.FrameHeader{Type: http2.FrameGoAway}, LastStreamID: last, ErrCode: http2.ErrCodeNo}, false)
@@ -159,3 +165,34 @@ func h15g(N int) {
 
 func H15g_q() { h15g(4) }
 func H15g_t() { h15g(6) }
+
+// H15d: response-direction DATA on a stream - also before any response HEADERS, which is malformed but must not
+// crash - followed by whatever cuts the stream off. x/net's DataFrame cannot be built outside its package: the
+// harness does what handleFrame does with one (hands the payload to the stream's response data tracer).
+func H15d_q() {
+	rec := &vTraceRec{}
+	c := &tracingHTTP2Conn{isServer: vBool("isServer"), collector: &http2RetryCollector{collector: rec}}
+	fields := []hpack.HeaderField{
+		{Name: ":method", Value: "POST"}, {Name: ":scheme", Value: "http"}, {Name: ":authority", Value: "h"},
+		{Name: ":path", Value: "/svc/M"}, {Name: "x-test-case-name", Value: vNames[0]},
+	}
+	vAssume(c.isServer) // (the client side of newBuilder uses httptrace: outside the encoder's reach)
+	c.handleFrame(vHeaders(1, false, fields), true)
+	respStarted := vBool("response")
+	if respStarted {
+		c.handleFrame(vHeaders(1, false, []hpack.HeaderField{{Name: ":status", Value: "200"}, {Name: "content-type", Value: "application/proto"}}), false)
+	}
+	if hs := c.getExistingStreamLocked(1); hs != nil {
+		hs.responseTracer.trace([]byte{1, 2, 3})
+	}
+	switch vInt("cut", 0, 2) {
+	case 0:
+		c.handleFrame(&http2.GoAwayFrame{FrameHeader: http2.FrameHeader{Type: http2.FrameGoAway}, LastStreamID: 0, ErrCode: http2.ErrCodeProtocol}, false)
+	case 1:
+		c.cancelAll(errVerifConn)
+	default:
+		c.handleFrame(&http2.RSTStreamFrame{FrameHeader: http2.FrameHeader{Type: http2.FrameRSTStream, StreamID: 1}, ErrCode: http2.ErrCodeCancel}, false)
+	}
+	c.collector.cancel()
+	vAssert(rec.n == 1 && rec.names[0] == vNames[0] && rec.kinds[0] != 0, "the cut-off stream yields exactly one trace, ending with the error that cut it off")
+}
